@@ -54,6 +54,12 @@ class GhostFS:
                 return False
 
             def write(self, s):
+                if "b" in self.mode:              # binary write of an opaque object: torn, then complete
+                    fs.files[self.fn] = ("torn", None)
+                    fs.tick(f"partial write {_os.path.basename(self.fn)}")
+                    fs.files[self.fn] = ("complete", s)
+                    fs.tick(f"write {_os.path.basename(self.fn)}")
+                    return
                 st, c = fs.files[self.fn]
                 c = c if isinstance(c, str) else ""
                 fs.files[self.fn] = ("complete", c + s[:len(s) // 2])
@@ -64,7 +70,7 @@ class GhostFS:
             def read(self):
                 st, c = fs.files[self.fn]
                 if st == "torn":
-                    return ""
+                    return b"" if "b" in self.mode else ""
                 return c
 
         class _Pickle:
@@ -128,5 +134,20 @@ class GhostFS:
             def listdir(d):
                 return [_os.path.basename(p) for p in fs.files if _os.path.dirname(p) == d]
 
+        class _PPath:
+            def __init__(self, p):
+                self.p = str(p)
+
+            def unlink(self, missing_ok=False):
+                if self.p not in fs.files:
+                    if missing_ok:
+                        return
+                    raise FileNotFoundError(self.p)
+                del fs.files[self.p]
+                fs.tick(f"unlink {_os.path.basename(self.p)}")
+
+        class _Pathlib:
+            Path = _PPath
+
         return dict(open=lambda fn, mode="r", **k: _File(fn, mode), pickle=_Pickle, os=_OS, makedirs=_OS.makedirs,
-                    isfile=_Path.isfile, join=_os.path.join)
+                    isfile=_Path.isfile, isdir=_Path.isdir, join=_os.path.join, pathlib=_Pathlib)
